@@ -19,6 +19,31 @@ func H_C20_ipv4_text() {
 	vCover("end")
 }
 
+// every textual form of an address says the same thing: CIDRAddress is the address with its prefix, CIDRMask the network
+// address with the same prefix, and a range prints as its two ends
+func H_C20_ipv4_cidr_text() {
+	x := symIPv4()
+	y := NewIPv4FromString(x.CIDRAddress())
+	vCheck(y != nil && *y == *x, "ipv4/text/CIDRAddress-parses-to-the-address")
+	p := uint(x.MaskBits)
+	mask := uint32((uint64(0xFFFFFFFF) << (32 - p)) & 0xFFFFFFFF)
+	z := NewIPv4FromString(x.CIDRMask())
+	vCheck(z != nil, "ipv4/text/CIDRMask-parses")
+	if z != nil {
+		vCheck(z.ToUInt32() == x.ToUInt32()&mask, "ipv4/text/CIDRMask-is-the-network-address")
+		vCheck(z.MaskBits == x.MaskBits, "ipv4/text/CIDRMask-keeps-prefix")
+	}
+	vCover("end")
+}
+
+func H_C20_ipv4_range_text() {
+	s := NewIPv4(vU8("sa"), vU8("sb"), vU8("sc"), vU8("sd"), 32)
+	e := NewIPv4(vU8("ea"), vU8("eb"), vU8("ec"), vU8("ed"), 32)
+	r := &IPv4Range{Start: s, End: e}
+	vCheck(r.String() == s.String()+" - "+e.String(), "ipv4/text/Range.String-is-start-dash-end")
+	vCover("end")
+}
+
 func H_C20_ipv4_subnet() {
 	addr := NewIPv4(vU8("a"), vU8("b"), vU8("c"), vU8("d"), 32)
 	net := NewIPv4(vU8("na"), vU8("nb"), vU8("nc"), vU8("nd"), uint8(vParam("p")))
@@ -78,6 +103,9 @@ func H_C20_ipv6_range() {
 	ge := vOr(xv[0] > sv[0], vAnd(xv[0] == sv[0], xv[1] >= sv[1]))
 	le := vOr(xv[0] < ev[0], vAnd(xv[0] == ev[0], xv[1] <= ev[1]))
 	vCheck(x.IsInRange(s, e) == vAnd(ge, le), "ipv6/IsInRange-128-bit-unsigned-interval")
+	r := &IPv6Range{Start: s, End: e}
+	vCheck(r.Contains(x) == vAnd(ge, le), "ipv6/Range.Contains")
+	vCheck(x.IsInSubnet(s) == vAnd(xv[0] == sv[0], xv[1] == sv[1]), "ipv6/IsInSubnet-is-address-equality")
 	vCover("end")
 }
 
